@@ -151,19 +151,10 @@ func c14(c *core.Ctx) string {
 		"takeover/disconnect identity issues (C16), delivery after routing (C15)",
 	}
 
-	e := &c14env{c: c, pkg: c.Prog.Pkg(mq)}
-	if e.pkg == nil {
-		c.Errorf("anchor: package %s not loaded", mq)
+	e := c14newEnv(c)
+	if e == nil {
 		return ""
 	}
-	e.nodesF = structField(c, mq, "topicNode", "nodes")
-	e.clientsF = structField(c, mq, "topicNode", "clients")
-	e.rootF = structField(c, mq, "TopicManager", "root")
-	e.dataF = structField(c, mq, "topicLevelManager", "data")
-	if e.nodesF == nil || e.clientsF == nil || e.rootF == nil || e.dataF == nil {
-		return ""
-	}
-	e.findCollectors()
 	c.RequireCount("R-C14-5", "collector methods (range recv.clients -> map parameter)", len(e.collectors), 1)
 
 	c14Find(e)
@@ -177,6 +168,25 @@ func c14(c *core.Ctx) string {
 	c14Teardown(e)
 	c14Pairing(e)
 	return "Static shape rules on the MQTT topic trie: the per-level decision of findSubscribers is extracted path-sensitively and compared with the MQTT 3.1.1 table ('#' collects and stops, '+'/equal descend, parent-level '#' after the last level); validation gates, the pruning guard, lock discipline / write sites, QoS provenance, and the all-or-nothing / process-everything contracts of the batch operations the SUBSCRIBE, UNSUBSCRIBE and disconnect paths rely on. Not decided: the trie over whole histories, splitTopic's automaton, pruning order, LRU eviction."
+}
+
+// c14newEnv resolves the anchors of the topic trie (nil, with the error recorded, when one is missing). Also used by C16,
+// which shares R-C14-6 (only filters the trie accepted are recorded in the session a reconnect restores from).
+func c14newEnv(c *core.Ctx) *c14env {
+	e := &c14env{c: c, pkg: c.Prog.Pkg(mq)}
+	if e.pkg == nil {
+		c.Errorf("anchor: package %s not loaded", mq)
+		return nil
+	}
+	e.nodesF = structField(c, mq, "topicNode", "nodes")
+	e.clientsF = structField(c, mq, "topicNode", "clients")
+	e.rootF = structField(c, mq, "TopicManager", "root")
+	e.dataF = structField(c, mq, "topicLevelManager", "data")
+	if e.nodesF == nil || e.clientsF == nil || e.rootF == nil || e.dataF == nil {
+		return nil
+	}
+	e.findCollectors()
+	return e
 }
 
 // ---------------------------------------------------------------------------------------
